@@ -6,15 +6,15 @@ sys.path.insert(0, os.path.join(ROOT, "checklib"))
 import props
 
 PARTIAL = {
-    "C01": "JSON side proved for typed targets only; completeness (`= normV`) proved for plain kinds and simple struct maps, unions / transforms / untyped slots by tie",
-    "C03": "float text re-reads exactly: hypothesis `FloatTextOk` (shown equivalent to the statement), validated against strconv by the tie",
+    "C01": "CBOR: whole domain `fullTy` proved (roundtrip_full_cbor). JSON: transport for every type, equality with the token-level round trip for typed targets when it succeeds, full statement for plain kinds; JSON into untyped slots (numeric re-typing) by tie against normV",
+    "C03": "none since C03Float (FloatTextOk proved); float text routines themselves are model code validated against strconv by the tie",
     "C06": "allocation proved for the model's make sites, measured on the real code; Go-runtime panics observed by the tie only",
-    "C11": "independence (no shared storage) cannot be expressed over immutable model values: tie only (mutation probing)",
-    "C12": "fixpoint proved for the untyped chain; that b2 still decodes to v (typed) is the `remarshal` tie + C01",
-    "C15": "decoder models are cursor clients by construction; real decoders vs schedules: tie",
+    "C11": "independence (no shared storage) cannot be expressed over immutable model values: tie only (mutation probing); equality proved on `fullTy`",
+    "C12": "fixpoint proved for the untyped chain (JSON: per-float decidable condition `floatStable`); that b2 still decodes to v (typed) is C01 + the `remarshal` tie",
+    "C15": "none in the model since C15Prog (decoder models = programs over the reader operations); real decoders vs schedules: tie",
     "C17": "object-layer instances have no state in the model: reuse after any history is tie only; codec Reset and framing proved",
     "C18": "memory model / scheduler not modelled: non-interference theorem + regenerated SSA write-set + race detector",
-    "C13": "completeness (`complete_*`) for plain kinds; structs/unions/transforms by tie (and C11.clone_equal_struct)",
+    "C13": "completeness proved on `fullTy`; outside it (untagged structs inside untyped slots, transforms receiving untyped forms) tie only",
 }
 
 def status():
